@@ -91,7 +91,7 @@ theorem abs_scaled_le {n : Nat} {w lower upper : Nat → K} {s0 : K} (hl : ∀ j
   exact mul_le_mul_of_nonneg_right hb.2 (abs_nonneg _)
 
 /-- from the componentwise bound to the Euclidean one: `Σ d_j² ≤ s0²·Σ w_j²` -/
-theorem sum_sq_le {n : Nat} {d w : Nat → K} {s0 : K} (hs : 0 ≤ s0) (h : ∀ j, j < n → |d j| ≤ s0 * |w j|) :
+theorem sum_sq_le {n : Nat} {d w : Nat → K} {s0 : K} (h : ∀ j, j < n → |d j| ≤ s0 * |w j|) :
     (∑ j ∈ Finset.range n, d j ^ 2) ≤ s0 ^ 2 * ∑ j ∈ Finset.range n, w j ^ 2 := by
   rw [Finset.mul_sum]
   apply Finset.sum_le_sum
